@@ -8,7 +8,8 @@ use crate::subject::problems::{so, TagP};
 use mahf::components::utils::populations as pu;
 use mahf::state::common::Populations;
 use mahf::{Individual, State};
-use serde_json::Value;
+use rayon::prelude::*;
+use serde_json::{json, Value};
 
 type Ind = (u32, u8); // (tag, objective rank)
 type Pop = Vec<Ind>;
@@ -542,6 +543,44 @@ pub fn run(rep: &mut Report) {
     p.outcome("agree");
     p.outcome(format!("states:{}", p.states));
     p.require(p.states > 100 || !p.violations.is_empty(), "too few states");
+    rep.push(p);
+
+    // tall stacks: a plain stack has no height limit. From the stack reached by h pushes (h = 0..H) the whole
+    // alphabet (every depth for peek, every n for rotate) is applied once more.
+    let mut p = Part::new("popstack.tall-ramps");
+    let hmax = rep.tier.pick(48usize, 160usize);
+    p.bound("max_height", hmax as u64 + 1).bound("max_population_size", 2);
+    let mut hist: Vec<Op> = vec![];
+    let mut key: Vec<Pop> = vec![];
+    'ramp: for h in 0..=hmax {
+        let sys = Stack { max_h: h + 1, max_s: 2 };
+        let ops = sys.ops(&key);
+        let res: Vec<(Op, StepResult<Vec<Pop>>)> = ops.par_iter().map(|op| (op.clone(), run_history(&hist, op))).collect();
+        p.states += 1;
+        for (op, r) in res {
+            p.transitions += 1;
+            if let StepResult::Violation(sg, d) = r {
+                let mut hh: Vec<Value> = hist.iter().map(|o| json!(format!("{:?}", o))).collect();
+                hh.push(json!(format!("{:?}", op)));
+                p.violate(sg, d, json!({"history": hh}));
+            }
+        }
+        p.traces += 1;
+        let pu = Op::Push(1 + (h % 2) as u8, (h % 3) as u8);
+        match run_history(&hist, &pu) {
+            StepResult::Ok(k) => key = k,
+            StepResult::Violation(sg, d) => {
+                let mut hh: Vec<Value> = hist.iter().map(|o| json!(format!("{:?}", o))).collect();
+                hh.push(json!(format!("{:?}", pu)));
+                p.violate(sg, d, json!({"history": hh}));
+                break 'ramp;
+            }
+            StepResult::Skip => break 'ramp,
+        }
+        hist.push(pu);
+    }
+    p.outcome("agree");
+    p.outcome(format!("height:{}", hist.len()));
     rep.push(p);
 
     let mut p = Part::new("popstack.history-complete");
